@@ -9,6 +9,8 @@ pub mod c09;
 pub mod c10;
 pub mod c11;
 pub mod c12;
+pub mod c13;
+pub mod c14;
 pub mod c15;
 pub mod c16;
 pub mod c17;
@@ -31,6 +33,8 @@ pub fn get(id: &str, tier: Tier) -> Option<Monitor> {
         "C10" => Some(c10::monitor(tier)),
         "C11" => Some(c11::monitor(tier)),
         "C12" => Some(c12::monitor(tier)),
+        "C13" => Some(c13::monitor(tier)),
+        "C14" => Some(c14::monitor(tier)),
         "C15" => Some(c15::monitor(tier)),
         "C16" => Some(c16::monitor(tier)),
         "C17" => Some(c17::monitor(tier)),
